@@ -297,9 +297,12 @@ impl Prop for C02 {
     match t {
       "s2l" => {
         let (lo, hi) = shard_range(NDAYS, shard, nshards);
+        let mut rev = Reverse::new(30);
         for i in lo..hi {
           run_case(env, out, "s2l", &Case::ints(&[i as i64]), &ev);
+          rev.note("s2l", &Case::ints(&[i as i64]));
         }
+        rev.run(env, out, &ev);
         out.set_exhaustive("s2l", true);
       }
       "l2s" => {
